@@ -1416,6 +1416,8 @@ func (c *Client) sendSingleMsg(client *smtp.Client, message *Msg) error {
 		}
 		if resetSendErr := client.Reset(); resetSendErr != nil {
 			retError.errlist = append(retError.errlist, resetSendErr)
+			// The server state is unknown, the transaction might still be open
+			_ = client.Close()
 		}
 		return retError
 	}
@@ -1439,6 +1441,8 @@ func (c *Client) sendSingleMsg(client *smtp.Client, message *Msg) error {
 	if hasError {
 		if resetSendErr := client.Reset(); resetSendErr != nil {
 			rcptSendErr.errlist = append(rcptSendErr.errlist, resetSendErr)
+			// The server state is unknown, the transaction might still be open
+			_ = client.Close()
 		}
 		return rcptSendErr
 	}
@@ -1453,6 +1457,8 @@ func (c *Client) sendSingleMsg(client *smtp.Client, message *Msg) error {
 		// is still open and needs to be aborted before the next message can be sent.
 		if resetSendErr := client.Reset(); resetSendErr != nil {
 			retError.errlist = append(retError.errlist, resetSendErr)
+			// The server state is unknown, the transaction might still be open
+			_ = client.Close()
 		}
 		return retError
 	}
